@@ -425,7 +425,7 @@ Theorem read_n_ok n lo hi : s_down sr = [] -> (1 <= n)%N ->
              /\ (len (resample p b (select lo hi l)) <= 2 * n)%N)
   \/ (select lo hi l = [] /\ read_n sr n lo hi fs = (fs, Err ERange)).
 Proof.
-  intros RDn Hn. unfold read_n. rewrite RDn. cbn [map sorted_desc negb].
+  intros RDn Hn. unfold read_n. rewrite RDn. cbn [sorted_lens].
   replace (n =? 0)%N with false by (symmetry; apply N.eqb_neq; lia). cbn [pick_level].
   erewrite mbind_ok by reflexivity.
   destruct (seek_ok (s_cb sr) lo hi) as [(ps & SK & GOOD)|(SE & SK)].
